@@ -14,7 +14,7 @@ Steps: clean worktree at /tmp/vs (created on first use from /repo HEAD) ->
 import json, os, re, shutil, subprocess, sys, time
 
 V = os.path.dirname(os.path.dirname(os.path.abspath(__file__)))
-WT = '/tmp/vs'
+WT = os.environ.get('VS_WT', '/tmp/vs')
 
 
 def sh(cmd, cwd=WT, timeout=3000, env=None):
